@@ -75,6 +75,24 @@ theorem gen_QuoIntRoundUp (a b : Int) (hb : b ≠ 0) (ha : fits256 a = true) :
       omega
     · simp [hb, hr, hc, f1, bind, Except.bind, pure, Except.pure]
 
+/-- `big.Int.BitLen() > 256` is exactly "does not fit 256 bits" -/
+theorem bitLen_gt_iff (q : Int) : decide (GoInt.bitLen q > 256) = !fits256 q := by
+  unfold GoInt.bitLen fits256
+  by_cases h0 : q = 0
+  · subst h0; simp
+  · have hn : q.natAbs ≠ 0 := fun h => h0 (Int.natAbs_eq_zero.mp h)
+    simp only [h0, if_false]
+    have key : (256 < q.natAbs.log2 + 1) ↔ ¬ q.natAbs < 2 ^ 256 := by
+      rw [Nat.not_lt, ← Nat.le_log2 hn]; omega
+    have cast : ((↑(q.natAbs.log2 + 1) : Int) > 256) ↔ (256 < q.natAbs.log2 + 1) := by omega
+    by_cases hlt : q.natAbs < 2 ^ 256
+    · have h1 : ¬ ((↑(q.natAbs.log2 + 1) : Int) > 256) := fun h => (key.mp (cast.mp h)) hlt
+      have a : ¬ (256 < (q.natAbs.log2 : Int) + 1) := by omega
+      simp [a]; omega
+    · have h1 : ((↑(q.natAbs.log2 + 1) : Int) > 256) := cast.mpr (key.mpr hlt)
+      have a : (256 < (q.natAbs.log2 : Int) + 1) := by omega
+      simp [a]; omega
+
 /-- the translated `applyLooselyTo` is the model's, error classes included; a price in another
 denomination is rejected before any arithmetic -/
 theorem gen_applyLooselyTo (r : GoFeeRatio) (price : GoCoin) :
@@ -83,21 +101,21 @@ theorem gen_applyLooselyTo (r : GoFeeRatio) (price : GoCoin) :
       then Fees.applyLooselyTo price.amount r.price.amount r.fee.amount
       else .error .invalid := by
   unfold Generated.FeeArith.applyLooselyTo Fees.applyLooselyTo GoInt.quoRemInt GoInt.isZero
-    GoInt.mul GoInt.add
+    GoInt.newIntFromBigInt GoInt.sign
   by_cases hd : r.price.denom = price.denom
   · by_cases hz : r.price.amount = 0
-    · simp [hd, hz, bind, Except.bind, throw, throwThe, MonadExceptOf.throw]
+    · simp [hd, hz, throw, throwThe, MonadExceptOf.throw]
     · simp only [hd, hz, bind, Except.bind, pure, Except.pure, throw, throwThe, MonadExceptOf.throw,
         ne_eq, not_true_eq_false, decide_false, decide_true, if_true, if_false, Bool.false_eq_true,
-        Bool.not_eq_true']
-      cases hm : mul256 price.amount r.fee.amount with
-      | error e => rfl
-      | ok prod =>
-        simp only []
-        by_cases hrem : prod.tmod r.price.amount = 0
-        · simp [hrem]
-        · simp only [hrem, decide_false, Bool.not_false, if_true, not_false_eq_true]
-          cases add256 (prod.tdiv r.price.amount) 1 <;> rfl
+        Bool.not_eq_true', bitLen_gt_iff]
+      by_cases hrem : (price.amount * r.fee.amount).tmod r.price.amount = 0
+      · have hs : ((price.amount * r.fee.amount).tmod r.price.amount).sign = 0 := by simp [hrem]
+        simp only [hrem, hs, not_true_eq_false, decide_false, if_false, Bool.false_eq_true]
+        cases hf : fits256 ((price.amount * r.fee.amount).tdiv r.price.amount) <;> simp [hf]
+      · have hs : ¬ ((price.amount * r.fee.amount).tmod r.price.amount).sign = 0 := by
+          simpa [Int.sign_eq_zero_iff_zero] using hrem
+        simp only [hrem, hs, not_false_eq_true, decide_true, if_true]
+        cases hf : fits256 ((price.amount * r.fee.amount).tdiv r.price.amount + 1) <;> simp [hf]
   · simp [hd, throw, throwThe, MonadExceptOf.throw]
 
 theorem gen_ApplyTo (r : GoFeeRatio) (price : GoCoin) (hd : r.price.denom = price.denom) :
@@ -187,7 +205,8 @@ theorem code_QuoIntRoundUp_away_from_zero (a b : Int) (hb : b ≠ 0) (ha : fits2
 denomination, whenever the product fits 256 bits (the exact failing set is `applyLoosely_fails_iff`). -/
 theorem code_ApplyToLoosely_is_ceil (r : GoFeeRatio) (price : GoCoin)
     (hd : r.price.denom = price.denom) (hp : 0 ≤ price.amount) (hrf : 0 ≤ r.fee.amount)
-    (hrp : 0 < r.price.amount) (hfit : fits256 (price.amount * r.fee.amount) = true) :
+    (hrp : 0 < r.price.amount)
+    (hfit : fits256 (ceilDiv (price.amount * r.fee.amount) r.price.amount) = true) :
     ∃ fee, Generated.FeeArith.ApplyToLoosely r price = .ok fee ∧ fee.denom = r.fee.denom ∧
       IsCeilDiv (price.amount * r.fee.amount) r.price.amount fee.amount ∧ 0 ≤ fee.amount := by
   obtain ⟨a, rd, hok, hceil, _, hnn⟩ := applyLoosely_is_ceil hp hrf hrp hfit
@@ -197,7 +216,8 @@ theorem code_ApplyToLoosely_is_ceil (r : GoFeeRatio) (price : GoCoin)
 /-- [on the code] the strict application succeeds exactly on exact divisions, with the exact quotient. -/
 theorem code_ApplyTo_exact (r : GoFeeRatio) (price : GoCoin)
     (hd : r.price.denom = price.denom) (hp : 0 ≤ price.amount) (hrf : 0 ≤ r.fee.amount)
-    (hrp : 0 < r.price.amount) (hfit : fits256 (price.amount * r.fee.amount) = true) :
+    (hrp : 0 < r.price.amount)
+    (hfit : fits256 (ceilDiv (price.amount * r.fee.amount) r.price.amount) = true) :
     (∀ fee, Generated.FeeArith.ApplyTo r price = .ok fee →
         fee.amount * r.price.amount = price.amount * r.fee.amount ∧ fee.denom = r.fee.denom) ∧
     ((price.amount * r.fee.amount) % r.price.amount = 0 →
